@@ -1764,6 +1764,32 @@ let rec drop_while p l = match l with
 let trim_ascii_end l =
   rev (drop_while is_ascii_ws (rev l))
 
+(** val drop_blank_rev : bytes -> bytes **)
+
+let rec drop_blank_rev r = match r with
+| [] -> []
+| z0 :: t ->
+  if N.leb z0 (Npos (XO (XO (XO (XO (XO XH))))))
+  then drop_blank_rev t
+  else (match t with
+        | [] -> r
+        | y :: l ->
+          (match l with
+           | [] -> r
+           | x :: rest ->
+             if (&&)
+                  ((&&)
+                    (N.eqb z0 (Npos (XO (XO (XO (XO (XO (XO (XO XH)))))))))
+                    (N.eqb y (Npos (XO (XO (XO (XO (XO (XO (XO XH))))))))))
+                  (N.eqb x (Npos (XI (XI (XO (XO (XO (XI (XI XH)))))))))
+             then drop_blank_rev rest
+             else r))
+
+(** val trim_blank_end : bytes -> bytes **)
+
+let trim_blank_end l =
+  rev (drop_blank_rev (rev l))
+
 (** val strip_prefix : bytes -> bytes -> bytes option **)
 
 let strip_prefix p l =
@@ -1832,9 +1858,9 @@ let format_line_comment alnum content =
           (XI (XI (XO XH)))))) :: [])) content with
   | Some comment0 ->
     let new1 = flc_new1 alnum content (flc_comment comment0) in
-    if Nat.eqb (length (trim_ascii_end content)) (length content)
+    if Nat.eqb (length (trim_blank_end content)) (length content)
     then new1
-    else Some (trim_ascii_end (match new1 with
+    else Some (trim_blank_end (match new1 with
                                | Some s -> s
                                | None -> content))
   | None -> None
